@@ -20,6 +20,7 @@ def run(ctx):
     ctx.explain("E-VNM.lockstep: in add_named every path through the loop body appends exactly one name per variable number "
                 "drawn, so that index[name] is the position of name in `names`.")
     n = evnm2.run(ctx, F)
+    evnm2.check_clone(ctx, F)
     ctx.floor("E-VNM.lockstep", "loop paths of add_named", n, 2)
     eevent.check_manager(ctx, F, "oxidd_manager_index")
     eevent.check_manager(ctx, F, "oxidd_manager_pointer")
